@@ -166,6 +166,15 @@ func transportScenario(kind int, r *rand.Rand) (lines [][2]string) {
 			}
 		}
 	}
+	// mustReturn: call i's context has been cancelled; it has to return without any help from the broker
+	mustReturn := func(i int) {
+		select {
+		case <-done[i]:
+		case <-time.After(watchdog()):
+			noteStuck()
+			rec.add("to/%d", i+1)
+		}
+	}
 	closeIdle := func() {
 		rec.add("ci")
 		tr.CloseIdleConnections()
@@ -180,7 +189,7 @@ func transportScenario(kind int, r *rand.Rand) (lines [][2]string) {
 		waitHeld(ncalls)
 		cancelAll()
 		for i := range done {
-			<-waitOr(done[i])
+			mustReturn(i)
 		}
 		closeIdle()
 		time.Sleep(time.Duration(r.Intn(5)) * time.Millisecond)
@@ -189,7 +198,7 @@ func transportScenario(kind int, r *rand.Rand) (lines [][2]string) {
 		waitHeld(ncalls)
 		cancelAll()
 		for i := range done {
-			<-waitOr(done[i])
+			mustReturn(i)
 		}
 		doRelease()
 		time.Sleep(time.Duration(r.Intn(80)) * time.Millisecond) // sometimes shorter, sometimes longer than IdleTimeout
@@ -202,7 +211,7 @@ func transportScenario(kind int, r *rand.Rand) (lines [][2]string) {
 		}
 		cancelAll()
 		for i := range done {
-			<-waitOr(done[i])
+			mustReturn(i)
 		}
 		doRelease() // should a request be sent after all, it is answered
 		time.Sleep(time.Duration(40+r.Intn(40)) * time.Millisecond)
@@ -212,7 +221,7 @@ func transportScenario(kind int, r *rand.Rand) (lines [][2]string) {
 		closeIdle() // refused: the callers still hold the pool? — CloseIdleConnections drops its own reference only
 		rec.add("cx/1")
 		cancels[0]()
-		<-waitOr(done[0])
+		mustReturn(0)
 		doRelease()
 	}
 	pend := "-"
